@@ -266,7 +266,7 @@ def run(ck):
     if not hasattr(kmod.hash_keyring_password, "cache_info"):
         kmod.hash_keyring_password = functools.lru_cache(maxsize=None)(kmod.hash_keyring_password)
     rnd = random.Random(ck.seed)
-    tlc.mc(ck, "secure/Keyring_MC", "secure/Keyring_MC", require_actions=False, timeout=900)
+    tlc.mc(ck, "secure/Keyring_MC", "secure/Keyring_MC_quick" if ck.tier == "quick" else "secure/Keyring_MC", require_actions=False, timeout=900)
     dev = tlc.mc(ck, "secure/Keyring_MC", "secure/Keyring_Dev", expect_error=True, record=False, coverage=False)
     ck.add(deviation_model_counterexample="violated" in dev.error)
     recs, ex = [], []
